@@ -162,6 +162,9 @@ def impl_run_inner(c):
         rec["from_coe"] = [float(v) for v in eqe2eci(*coe2eqe(*el, retro=retro), retro=retro)]
         rec["to_coe"] = [float(v) for v in coe2eci(*eqe2coe(*q, retro=retro))]
         rec["to_coe_el"] = [float(v) for v in eqe2coe(*q, retro=retro)]
+        # the element class: built from a state / from classical elements with the same choice of set, and asked for the state back
+        rec["cls_eci"] = [float(v) for v in EquinoctialElements.fromECI(x, retro=retro).toECI()]
+        rec["cls_coe"] = [float(v) for v in EquinoctialElements.fromCOE(*el, retro=retro).toECI()]
         hv = np.asarray(hvec) / np.linalg.norm(hvec)
         f_hat, g_hat = ut.getEquinoctialBasisVectors(q[3], q[4], retro=retro)
         rec["basis"] = [float(v) for v in f_hat] + [float(v) for v in g_hat]
@@ -208,6 +211,21 @@ def impl_run_inner(c):
         target = ref_state(a, e, i, 0.0, 0.0, nu)
     out["cfg_coe"] = [float(v) for v in asked_twice(COEStateConfig(**kw))]
     out["cfg_coe_target"] = [float(v) for v in target]
+    # the same description carrying a second, consistent spelling of an angle (legal: the first complete field set counts), with the
+    # angle of the first spelling exactly zero - a value, not an absence
+    if inclined and deg(O) != 0.0:
+        kz = dict(semi_major_axis=a, eccentricity=e, inclination=float(math.degrees(i)), right_ascension=deg(O))
+        if eccentric:
+            kz.update(argument_periapsis=0.0, true_anomaly=deg(nu), true_longitude_periapsis=deg(O))
+            tz = ref_state(a, e, i, O, 0.0, nu)
+        else:
+            kz.update(argument_latitude=0.0, true_longitude=deg(O))
+            tz = ref_state(a, e, i, O, 0.0, 0.0)
+        try:
+            out["cfg_coe_zero"] = [float(v) for v in asked_twice(COEStateConfig(**kz))]
+            out["cfg_coe_zero_target"] = [float(v) for v in tz]
+        except ValueError as ex:  # a validator that refuses two spellings is within its rights; a wrong state is not
+            out["cfg_coe_zero_refused"] = str(ex)[:100]
     return out
 
 
@@ -249,6 +267,8 @@ def oracle(run: Run, c, impl):
         chk(f"eci-eqe-eci:{name}", rec["rt"], t=1e-11)
         chk(f"coe-eqe:{name}", rec["from_coe"])
         chk(f"eqe-coe:{name}", rec["to_coe"])
+        chk(f"EquinoctialElements.fromECI.toECI:{name}", rec["cls_eci"])
+        chk(f"EquinoctialElements.fromCOE.toECI:{name}", rec["cls_coe"])
         chk(f"config:eqe:{name}", rec["cfg"], t=1e-11)
         lam = rec["q"][5]
         if not (0.0 <= lam < TAU):
@@ -261,6 +281,8 @@ def oracle(run: Run, c, impl):
     if "cfg_eci" in o:
         chk("config:eci", o["cfg_eci"], t=0.0)
     chk("config:coe", o["cfg_coe"], want=o["cfg_coe_target"], t=1e-9)
+    if "cfg_coe_zero" in o:
+        chk("config:coe:zero-angle-two-spellings", o["cfg_coe_zero"], want=o["cfg_coe_zero_target"], t=1e-9)
     el = o["el"]
     if not (0.0 <= el[2] <= math.pi):
         fails.append(("range", f"inclination {el[2]!r} outside [0, pi] ({desc})"))
